@@ -220,7 +220,15 @@ pub enum Surgery {
     /// others have numberOfHMetrics == numGlyphs, which hides the compact form from the writers.
     CompactHmtx { num_h_metrics: u16 },
     /// Install `vhea`/`vmtx` derived from `hhea`/`hmtx` (only NotoSansJP has them in the corpus).
-    InstallVertical { num_v_metrics: u16 },
+    InstallVertical {
+        num_v_metrics: u16,
+        /// vhea promises one long metric more than vmtx holds (an ill-formed pair of tables)
+        #[serde(default, skip_serializing_if = "std::ops::Not::not")]
+        over: bool,
+        /// variable fonts: also install a minimal well-formed `VVAR` (no corpus font has one)
+        #[serde(default, skip_serializing_if = "std::ops::Not::not")]
+        vvar: bool,
+    },
 }
 
 #[derive(Serialize, Deserialize, Clone, Debug)]
